@@ -7,6 +7,7 @@ ops (one history = everything since the last `reset`), see go/cmd/c10/main.go:
   reset <attr> <old:0|1> <smart:0|1> <autofile:hex> <dir:hex>
   file <name:hex> <hex|absent>
   comment <ptt|bbs> <sysop|user> <userid:hex13> <reqname:hex28> <type:0..255> <text:hex> <ip:hex16> <mtime>
+  fcomment <room:0..40> <comment arguments>   the same comment when only <room> more bytes fit into the article
   begin <id> <inproc|foreign> <comment arguments>   phase A of a commenter that then waits on the article's lock ("started")
   append <name:hex> <bytes:hex>    the lock holder (another process) appends to the article
   finish <id>                      its phase B, on whatever the index and the article hold by now
@@ -111,6 +112,7 @@ def showRes : Res → String
   | .notFound => "err:notfound"
   | .noFile => "err:nofile"
   | .lockErr => "err:lock"
+  | .writeErr => "err:write"
   | .idxErr => "err:idx"
   | .osErr => "err:os"
 
@@ -173,6 +175,13 @@ def stepC10 (d : DSt) (ws : List String) : DSt × String :=
     | some q =>
       let (st, res) := recommend findLinear d.cfg d.st q
       ({ d with st }, showOutcome st res)
+  | ["fcomment", room, via, lvl, user, req, ct, text, ip, mt] =>
+    if !d.have_ || !d.tickets.isEmpty then (d, "bad-op") else
+    match parseNatMax room 40, parseComment via lvl user req ct text ip mt with
+    | some room, some q =>
+      let (st, res) := recommendFault findLinear d.cfg d.st q room
+      ({ d with st }, showOutcome st res)
+    | _, _ => (d, "bad-op")
   | ["begin", id, holder, via, lvl, user, req, ct, text, ip, mt] =>
     if !d.have_ || (holder ≠ "inproc" && holder ≠ "foreign") then (d, "bad-op") else
     match parseComment via lvl user req ct text ip mt with
